@@ -187,7 +187,7 @@ INC_VALID = "; included helper file\n\nhelper_value = 0x21\n/* with\n a comment 
 
 
 def bound(tier):
-    return "11 base programs x every insertable line boundary x 38 faults (3 of them statements spanning lines; every single-statement error class) x 4 indentations (none, spaces, tab, mixed; one program also after a 40000/70000/140000-character comment on the same line) x 3 file situations (thorough: + nested include, + the 13 generated programs of the layout check)"
+    return "11 base programs x every insertable line boundary x 38 faults (3 of them statements spanning lines; every single-statement error class) x 4 indentations (none, spaces, tab, mixed; one program also after a 40000/70000/140000-character comment on the same line) x 5 file situations (main, included, main after an include, included under a new name, command line with -D; thorough: + nested include, + the 13 generated programs of the layout check)"
 
 
 def parse_base(text):
